@@ -160,7 +160,11 @@ pub fn parallel_parse(
                 Ok(Some(parsed_data)) => {
                     #[cfg(typeshare_verif)]
                     crate::verif::point("SendStart", &verif_path, "ok");
-                    tx.send(Ok(parsed_data)).unwrap();
+                    // The collector stops at the first error; there is nobody left to
+                    // receive this result.
+                    if tx.send(Ok(parsed_data)).is_err() {
+                        return WalkState::Quit;
+                    }
                     #[cfg(typeshare_verif)]
                     crate::verif::point("SendEnd", &verif_path, "ok");
                     WalkState::Continue
@@ -169,7 +173,8 @@ pub fn parallel_parse(
                 Err(err) => {
                     #[cfg(typeshare_verif)]
                     crate::verif::point("SendStart", &verif_path, "err");
-                    tx.send(Err(err)).unwrap();
+                    // Another worker may have reported an error already.
+                    let _ = tx.send(Err(err));
                     #[cfg(typeshare_verif)]
                     crate::verif::point("SendEnd", &verif_path, "err");
                     WalkState::Quit
